@@ -11,7 +11,7 @@
             decimal), hex-upper (upper-case hex digits)
      seq:accepted-path-dropped:ops=<ops> | seq:unaccepted-path-kept:ops=<ops> | seq:both:ops=..
      seq:valid-expression-rejected..., <fam>:input-order-not-preserved, <fam>:result-not-an-input-path,
-     acl:..., pol:..., <fam>:panic
+     acl:..., pol:..., ext:... (policy with inheritance and ISD-AS filters), <fam>:panic
    VERIF-DRIFT: an ACL evaluated hop-wise (reading of the documentation) instead of interface-wise
    (reading of the code) where the two differ: both readings satisfy the property as stated.   *)
 EXTENDS SeqPolicyOps, TLC, Json
@@ -66,18 +66,35 @@ AclEv ==
          ELSE Bad("acl" \o v)
 
 \* policy: ACL and sequence, then the options of the highest weight that keep anything
-PolWantSet(reading) ==
+\* what a resolved policy definition keeps of the input list: ISD-AS filters, ACL and sequence, then the
+\* options of the highest weight that keep anything
+PolWantOf(pol, reading, strict) ==
     LET n == Len(R.inp)
-        Base(i) == AclAccept(R.acl, HopsAt(i), reading) /\ SeqAccept(R.seq, HopsAt(i), "num")
+        Base(i) == /\ LocalAccept(pol.local, HopsAt(i), strict) /\ RemoteAccept(pol.remote, HopsAt(i))
+                   /\ AclAccept(pol.acl, HopsAt(i), reading) /\ SeqAccept(pol.seq, HopsAt(i), "num")
         Opt(o, i) == AclAccept(o.acl, HopsAt(i), reading) /\ SeqAccept(o.seq, HopsAt(i), "num")
-        W == {R.opts[k].w : k \in 1..Len(R.opts)}
+        W == {pol.opts[k].w : k \in 1..Len(pol.opts)}
         B == {i \in 1..n : Base(i)}
         \* S[w]: what the options of weight w keep (a function, so every set is computed once)
-        S == [w \in W |-> {i \in B : \E k \in 1..Len(R.opts) : R.opts[k].w = w /\ Opt(R.opts[k], i)}]
+        S == [w \in W |-> {i \in B : \E k \in 1..Len(pol.opts) : pol.opts[k].w = w /\ Opt(pol.opts[k], i)}]
         live == {w \in W : S[w] # {}}
-    IN IF Len(R.opts) = 0 THEN B
+    IN IF Len(pol.opts) = 0 THEN B
        ELSE IF live = {} THEN {}
        ELSE S[CHOOSE w \in live : \A x \in live : x <= w]
+
+PolWantSet(reading) ==
+    PolWantOf([acl |-> R.acl, seq |-> R.seq, opts |-> R.opts, local |-> <<>>, remote |-> <<>>], reading, TRUE)
+
+\* a policy with inheritance: resolve the extends lists, then filter
+ExtEv ==
+    IF R.panic = 1 THEN Bad("ext:panic")
+    ELSE IF R.err = 1 THEN Bad("ext:valid-policy-rejected")
+    ELSE \E pol \in {ResolveDef(R.top, R.pool)} :
+         \E v \in {CheckKept(R.kept, Len(R.inp), PolWantOf(pol, "iface", TRUE))} :
+         IF v = "" THEN Ok
+         ELSE IF CheckKept(R.kept, Len(R.inp), PolWantOf(pol, "hop", TRUE)) = "" THEN Drift("ext:hop-level-reading")
+         ELSE IF CheckKept(R.kept, Len(R.inp), PolWantOf(pol, "iface", FALSE)) = "" THEN Drift("ext:local-filter-keeps-src-equal-dst")
+         ELSE Bad("ext" \o v \o (IF Len(R.top.ext) > 1 THEN ":extends-two" ELSE ":extends-one"))
 
 PolEv ==
     IF R.panic = 1 THEN Bad("pol:panic")
@@ -93,6 +110,7 @@ Step == /\ l <= Len(Trace)
              [] R.ev = "seq" -> SeqEv
              [] R.ev = "acl" -> AclEv
              [] R.ev = "pol" -> PolEv
+             [] R.ev = "ext" -> ExtEv
              [] OTHER -> Bad("no-spec-action:" \o R.ev)
 
 Done == /\ l = Len(Trace) + 1
